@@ -875,3 +875,80 @@ Section Witness.
   Lemma unordered_trace_not_hb : ~ hb unordered_trace 1 2.
   Proof. intros H. exact (unordered_trace_not_hb_aux _ _ H eq_refl eq_refl). Qed.
 End Witness.
+
+(* ------------------------------------------------------------------------------------------ *)
+(** * Frame: handlers that only read the shared state (C07)
+
+    Any number of requests are served concurrently. A handler is a sequence of steps; a step reads
+    the shared state [sh] and the request-local state and writes only the request-local state (the
+    premise "handlers do not write shared state" is what [handler_writes table = []] establishes on
+    the generated access tables). The scheduler picks, step by step, which request advances.
+    Whatever the schedule and whatever the other requests are, a request that has run to completion
+    ends in the local state it reaches when it is served alone — hence the same response. *)
+Section Frame.
+  Variables Sh L : Type.
+  Definition hstep := (Sh -> L -> L)%type.
+  Record request := mkReq { rq_init : L; rq_steps : list hstep }.
+
+  Definition rstate := (L * list hstep)%type.
+
+  Definition fstep (sh : Sh) (cfg : list rstate) (i : nat) : list rstate :=
+    match nth_error cfg i with
+    | Some (l, st :: rest) => set_nth i (st sh l, rest) cfg
+    | _ => cfg
+    end.
+
+  Definition frun (sh : Sh) (cfg : list rstate) (sched : list nat) : list rstate := fold_left (fstep sh) sched cfg.
+
+  Definition finish (sh : Sh) (x : rstate) : L := fold_left (fun l st => st sh l) (snd x) (fst x).
+  Definition alone (sh : Sh) (r : request) : L := finish sh (rq_init r, rq_steps r).
+  Definition start (reqs : list request) : list rstate := map (fun r => (rq_init r, rq_steps r)) reqs.
+
+  Lemma fstep_finish sh cfg i : map (finish sh) (fstep sh cfg i) = map (finish sh) cfg.
+  Proof.
+    unfold fstep. destruct (nth_error cfg i) as [[l [|st rest]]|] eqn:E; auto.
+    revert i E; induction cfg as [|x t IH]; intros i E; destruct i; cbn in *; try discriminate.
+    - inversion E; subst. reflexivity.
+    - f_equal. apply IH; auto.
+  Qed.
+
+  Lemma frun_finish sh sched : forall cfg, map (finish sh) (frun sh cfg sched) = map (finish sh) cfg.
+  Proof.
+    induction sched as [|i t IH]; intros cfg; cbn; auto. unfold frun in IH. rewrite IH. apply fstep_finish.
+  Qed.
+
+  (** For every set of requests, every schedule and every request that has completed. *)
+  Theorem frame : forall sh reqs sched i l,
+    nth_error (frun sh (start reqs) sched) i = Some (l, []) ->
+    exists r, nth_error reqs i = Some r /\ l = alone sh r.
+  Proof.
+    intros sh reqs sched i l H.
+    pose proof (frun_finish sh sched (start reqs)) as F.
+    assert (G : nth_error (map (finish sh) (frun sh (start reqs) sched)) i = Some l).
+    { rewrite nth_error_map, H. reflexivity. }
+    rewrite F in G. unfold start in G. rewrite map_map, nth_error_map in G.
+    destruct (nth_error reqs i) as [r|]; [|discriminate]. exists r. split; auto.
+    cbn in G. inversion G. reflexivity.
+  Qed.
+
+  (** In particular the response to a request does not depend on what else is served, before or
+      at the same time: two runs with different companions and different schedules agree. *)
+  Corollary frame_independent : forall sh r others1 others2 sched1 sched2 l1 l2,
+    nth_error (frun sh (start (r :: others1)) sched1) 0 = Some (l1, []) ->
+    nth_error (frun sh (start (r :: others2)) sched2) 0 = Some (l2, []) ->
+    l1 = l2.
+  Proof.
+    intros sh r o1 o2 s1 s2 l1 l2 H1 H2.
+    destruct (frame _ _ _ _ _ H1) as (r1 & E1 & ->). destruct (frame _ _ _ _ _ H2) as (r2 & E2 & ->).
+    cbn in E1, E2. congruence.
+  Qed.
+
+  (** Progress: the fair round-robin schedule completes every request (the theorem above is not vacuous). *)
+  Lemma frame_sequential_completes : forall sh r,
+    nth_error (frun sh (start [r]) (repeat 0%nat (length (rq_steps r)))) 0 = Some (alone sh r, []).
+  Proof.
+    intros sh [l0 steps]. unfold alone, finish, start. cbn [map rq_init rq_steps fst snd].
+    revert l0; induction steps as [|st rest IH]; intros l0; [reflexivity|].
+    cbn [length repeat frun fold_left]. unfold fstep at 2. cbn [nth_error set_nth]. apply IH.
+  Qed.
+End Frame.
